@@ -1,5 +1,172 @@
+/-
+  C05 — betweenness centrality equals its definition.
+
+  The implementation's values are compared on every run with `bcSpec` (Spec/Centrality.lean): the definition by
+  enumeration of all shortest paths.  Proved here: the shape of the specification (one entry per node, values ≥ 0,
+  endpoints never count, the scaling rule incl. n ≤ 2 and the halving on undirected graphs) and the scaling /
+  bookkeeping facts of the model of the code (`bcScale`, `accumulate`).  The identification of the Brandes
+  accumulation with the definition for all graphs is NOT proved (stated below); it is decided per run by the
+  definition-level comparison on explored graphs.
+-/
 import GraphrsModel.ObsCen
+import Mathlib.Algebra.Order.Field.Rat
+import Mathlib.Tactic.Positivity
+import Mathlib.Tactic.Linarith
 namespace Graphrs
-/-- placeholder while the framework is brought up: replaced by the property theorems -/
-theorem C05_bcScale_small (d : Bool) : bcScale 2 true d = none := rfl
+
+private theorem foldl_inv {α β} (P : α → Prop) (f : α → β → α) (hf : ∀ a b, P a → P (f a b))
+    (l : List β) (a : α) (ha : P a) : P (l.foldl f a) := by
+  induction l generalizing a with
+  | nil => simpa using ha
+  | cons b l ih => simp only [List.foldl_cons]; exact ih _ (hf a b ha)
+
+private theorem foldl_add_nonneg (l : List Rat) (hl : ∀ x ∈ l, 0 ≤ x) (a : Rat) (ha : 0 ≤ a) :
+    0 ≤ l.foldl (· + ·) a := by
+  induction l generalizing a with
+  | nil => simpa using ha
+  | cons b l ih =>
+    simp only [List.foldl_cons]
+    exact ih (fun x hx => hl x (List.mem_cons_of_mem _ hx)) _ (add_nonneg ha (hl b (List.mem_cons_self ..)))
+
+private theorem sumRat_nonneg (l : List Rat) (hl : ∀ x ∈ l, 0 ≤ x) : 0 ≤ sumRat l :=
+  foldl_add_nonneg l hl 0 (le_refl 0)
+
+private theorem foldl_add_zero (l : List Rat) (hl : ∀ x ∈ l, x = 0) : l.foldl (· + ·) (0 : Rat) = 0 := by
+  induction l with
+  | nil => rfl
+  | cons b l ih =>
+    simp only [List.foldl_cons]
+    rw [hl b (List.mem_cons_self ..), add_zero]
+    exact ih (fun x hx => hl x (List.mem_cons_of_mem _ hx))
+
+/-- every path produced by `tightPaths` starts at the source -/
+theorem tightPaths_head (arcs : Arcs) (d : List (Nat × Int)) (s : Nat) :
+    ∀ (fuel t : Nat) (p : List Nat), p ∈ Arcs.tightPaths arcs d s fuel t → p.head? = some s := by
+  intro fuel
+  induction fuel with
+  | zero =>
+    intro t p hp
+    unfold Arcs.tightPaths at hp
+    split at hp
+    · simp at hp; subst hp; rfl
+    · simp at hp
+  | succ fuel ih =>
+    intro t p hp
+    unfold Arcs.tightPaths at hp
+    split at hp
+    · simp at hp; subst hp; rfl
+    · split at hp
+      · simp at hp
+      · simp only [List.mem_flatMap, List.mem_map] at hp
+        obtain ⟨y, _, p', hp', e⟩ := hp
+        have := ih y p' hp'
+        subst e
+        cases p' with
+        | nil => simp at this
+        | cons a l => simpa using this
+
+/-- `get_scale`, all cases -/
+theorem C05_scale_rule (n : Nat) (normalized directed : Bool) :
+    bcScale n normalized directed =
+      (if normalized then (if n ≤ 2 then none else some (1 / (((n : Rat) - 1) * ((n : Rat) - 2))))
+       else if directed then none else some (1 / 2)) := by
+  rfl
+
+/-- the accumulation keeps one slot per node -/
+theorem C05_accumulate_length (bc : List Rat) (r : SSR) : (accumulate bc r).length = bc.length := by
+  unfold accumulate
+  apply foldl_inv (fun (acc : List Rat × List Rat) => acc.1.length = bc.length)
+  · rintro ⟨b, dl⟩ w h
+    simp only at h ⊢
+    split
+    · rw [List.length_set]; exact h
+    · exact h
+  · rfl
+
+set_option linter.unusedVariables false in
+/-- the source of a stage never receives credit from that stage (`hnd` is not needed) -/
+theorem C05_accumulate_source_untouched (bc : List Rat) (r : SSR) (hnd : r.S.Nodup) :
+    (accumulate bc r)[r.source]? = bc[r.source]? := by
+  unfold accumulate
+  apply foldl_inv (fun (acc : List Rat × List Rat) => acc.1[r.source]? = bc[r.source]?)
+  · rintro ⟨b, dl⟩ w h
+    simp only at h ⊢
+    split
+    · rename_i hne
+      rw [List.getElem?_set_ne (by simpa using hne)]; exact h
+    · exact h
+  · rfl
+
+/-- the definition has exactly one entry per node -/
+theorem C05_bcSpec_keys (nodes : List Nat) (arcs : Arcs) (directed normalized : Bool) :
+    (bcSpec nodes arcs directed normalized).map (·.1) = nodes := by
+  unfold bcSpec
+  simp only [List.map_map]
+  conv => rhs; rw [← List.map_id nodes]
+  apply List.map_congr_left
+  intro u _
+  rfl
+
+/-- every value of the definition is non-negative -/
+theorem C05_bcSpec_nonneg (nodes : List Nat) (arcs : Arcs) (directed normalized : Bool) :
+    ∀ kv ∈ bcSpec nodes arcs directed normalized, 0 ≤ kv.2 := by
+  intro kv hkv
+  unfold bcSpec at hkv
+  simp only [List.mem_map] at hkv
+  obtain ⟨v, _, rfl⟩ := hkv
+  simp only
+  apply mul_nonneg
+  · apply sumRat_nonneg
+    intro x hx
+    rw [List.mem_map] at hx
+    obtain ⟨ps, _, rfl⟩ := hx
+    split
+    · exact le_refl 0
+    · split
+      · exact le_refl 0
+      · positivity
+  · split
+    · split
+      · exact zero_le_one
+      · rename_i hn
+        have h2 : (3 : Rat) ≤ (nodes.length : Rat) := by
+          have : 3 ≤ nodes.length := by omega
+          exact_mod_cast this
+        apply div_nonneg zero_le_one
+        apply mul_nonneg <;> linarith
+    · split
+      · exact zero_le_one
+      · positivity
+
+/-- for n ≤ 2 every value is 0 (so the scale is irrelevant) when the nodes are distinct:
+    a path with an interior node needs three distinct ... stated for the empty and the one-node graph -/
+theorem C05_bcSpec_tiny (arcs : Arcs) (directed normalized : Bool) (x : Nat) :
+    bcSpec [] arcs directed normalized = [] ∧ bcSpec [x] arcs directed normalized = [(x, 0)] := by
+  refine ⟨rfl, ?_⟩
+  unfold bcSpec
+  simp only [List.map_cons, List.map_nil, List.cons.injEq, Prod.mk.injEq, true_and, and_true]
+  rw [show ∀ (a b : Rat), a = 0 → a * b = 0 from fun a b h => by rw [h, zero_mul]]
+  apply foldl_add_zero
+  · intro y hy
+    simp only [List.flatMap_cons, List.flatMap_nil, List.append_nil, List.map_map, List.mem_map] at hy
+    obtain ⟨kv, _, rfl⟩ := hy
+    simp only [Function.comp]
+    split
+    · rfl
+    · rename_i p ps heq
+      have hh := tightPaths_head arcs _ x _ _ p (by rw [heq]; exact List.mem_cons_self ..)
+      simp [hh]
+
+/-- What remains unproved for C05 (kept visible): on every store satisfying the coupling invariant, with hop counts or positive
+    weights, the model of `betweenness_centrality` equals the definition. -/
+def C05_full_statement : Prop :=
+  ∀ (s : Store) (weighted normalized : Bool),
+    (weighted = true → ∀ e ∈ s.allEdges, ∃ w, e.w = some w ∧ 0 < w) →
+    ∀ out, s.betweenness weighted normalized = .ok out →
+      ∀ kv ∈ out, alookup (bcSpec s.getAllNodeNames (s.abs.arcs s.specs.directed weighted) s.specs.directed normalized) kv.1 = some kv.2
+
+/-- non-vacuity: the path 1 - 2 - 3 (undirected): node 2 lies on the only shortest path between 1 and 3 -/
+example : bcSpec [1, 2, 3] [(1, 2, 1), (2, 1, 1), (2, 3, 1), (3, 2, 1)] false false = [(1, 0), (2, 1), (3, 0)] := by
+  decide +kernel
+
 end Graphrs
